@@ -53,7 +53,7 @@ Definition line_relations (g : gtfcfg) (f : row) (id : str) : list rel :=
       end
   end.
 
-(* C03's domain: the standard keys, ordinary lines carry both ids, every transcript's and gene's
+(* C03's domain: the standard keys, ordinary lines carry both ids or the gene id only, every transcript's and gene's
    subfeatures sit on one seqid and strand with integer coordinates, a transcript has one gene *)
 Definition all_same (l : list str) : bool := match l with [] => true | x :: l' => forallb (str_eqb x) l' end.
 Definition gtf_line_ok (g : gtfcfg) (f : row) : bool :=
@@ -64,6 +64,7 @@ Definition gtf_line_ok (g : gtfcfg) (f : row) : bool :=
       match first_val (g_tkey g) f, first_val (g_gkey g) f with
       | Some t, Some gn => text_clean t && text_clean gn && negb (str_eqb t gn)
                            && negb (match t with [] => true | _ => false end) && negb (match gn with [] => true | _ => false end)
+      | None, Some gn => text_clean gn && negb (match gn with [] => true | _ => false end)   (* a line with the gene id only *)
       | _, _ => false
       end
       && match r_start f, r_end f with Some s, Some e => s <=? e | _, _ => false end
